@@ -555,7 +555,8 @@ pub fn binop(op: &str, l: Val, r: Val) -> Result<Val, SassErr> {
 /// `a - b` on non-numbers keeps quotes of quoted operands
 fn inspect_operand(v: &Val) -> Result<String, SassErr> {
     match v {
-        Val::Str(s, true) => Ok(format!("\"{}\"", s)),
+        // a quoted operand is serialized the way inspect() prints it (single quotes when the text holds a `"`)
+        Val::Str(_, true) => Ok(v.inspect()),
         other => css_text(other),
     }
 }
